@@ -34,17 +34,20 @@ type variant struct {
 	tags    string
 	race    bool
 	instr   bool
+	wide    bool // statement yields also in every file under primitives/
 	godebug string
 	binOf   string // shares the binary of another variant
 }
 
 var variants = map[string]*variant{
-	"plain":      {name: "plain"},
-	"instr":      {name: "instr", instr: true},
-	"instr-race": {name: "instr-race", instr: true, race: true},
-	"noavx2":     {name: "noavx2", godebug: "cpu.avx2=off", binOf: "plain"},
-	"purego":     {name: "purego", tags: "purego"},
-	"force32bit": {name: "force32bit", tags: "force32bit"},
+	"plain":       {name: "plain"},
+	"instr":       {name: "instr", instr: true},
+	"instr-race":  {name: "instr-race", instr: true, race: true},
+	"instrw":      {name: "instrw", instr: true, wide: true},
+	"instrw-race": {name: "instrw-race", instr: true, wide: true, race: true},
+	"noavx2":      {name: "noavx2", godebug: "cpu.avx2=off", binOf: "plain"},
+	"purego":      {name: "purego", tags: "purego"},
+	"force32bit":  {name: "force32bit", tags: "force32bit"},
 }
 
 type planItem struct {
@@ -142,13 +145,16 @@ func main() {
 // ---- building -----------------------------------------------------------------
 
 type builder struct {
-	dir     string // build dir for this repo tree
-	modfile string
-	overlay string
-	sites   int
-	files   []string
-	mu      sync.Mutex
-	built   map[string]string
+	dir      string // build dir for this repo tree
+	modfile  string
+	overlay  string
+	sites    int
+	files    []string
+	overlayW string
+	sitesW   int
+	filesW   []string
+	mu       sync.Mutex
+	built    map[string]string
 }
 
 func newBuilder() *builder {
@@ -192,13 +198,28 @@ func (b *builder) goCmd(args ...string) *exec.Cmd {
 	return c
 }
 
-func (b *builder) ensureOverlay() {
+func (b *builder) ensureOverlay(wide bool) {
+	if wide {
+		if b.overlayW != "" {
+			return
+		}
+		gen := filepath.Join(b.dir, "genw")
+		os.RemoveAll(gen)
+		res, err := instr.Generate(repoDir, gen, true)
+		if err != nil {
+			infra("instrumenter: %v", err)
+		}
+		b.overlayW = filepath.Join(gen, "overlay.json")
+		b.sitesW = len(res.Sites)
+		b.filesW = res.Files
+		return
+	}
 	if b.overlay != "" {
 		return
 	}
 	gen := filepath.Join(b.dir, "gen")
 	os.RemoveAll(gen)
-	res, err := instr.Generate(repoDir, gen)
+	res, err := instr.Generate(repoDir, gen, false)
 	if err != nil {
 		infra("instrumenter: %v", err)
 	}
@@ -230,8 +251,12 @@ func (b *builder) build(vn string) string {
 		args = append(args, "-race")
 	}
 	if v.instr {
-		b.ensureOverlay()
-		args = append(args, "-overlay", b.overlay)
+		b.ensureOverlay(v.wide)
+		if v.wide {
+			args = append(args, "-overlay", b.overlayW)
+		} else {
+			args = append(args, "-overlay", b.overlay)
+		}
 	}
 	args = append(args, "./cmd/vsim")
 	t0 := time.Now()
@@ -292,12 +317,16 @@ type itemResult struct {
 	timedOut    bool
 	fplists     []string
 	outDir      string
+	workers     int
 }
 
 func (v *variant) workerArgs() []string {
 	a := []string{"-variant", v.name}
 	if v.instr {
 		a = append(a, "-instr")
+	}
+	if v.wide {
+		a = append(a, "-wide")
 	}
 	if v.tags != "" {
 		a = append(a, "-tags", v.tags)
@@ -341,6 +370,7 @@ func runItem(b *builder, it planItem, outRoot string, deadline float64) *itemRes
 	var wg sync.WaitGroup
 	errs := make([]string, nw)
 	t0 := time.Now()
+	res.workers = nw
 	sem := make(chan struct{}, jobs)
 	for k := 0; k < nw; k++ {
 		k := k
@@ -518,7 +548,7 @@ func runCheck(id string) int {
 	sort.Strings(vnames)
 	for _, v := range vnames {
 		if variants[v].instr {
-			b.ensureOverlay()
+			b.ensureOverlay(variants[v].wide)
 		}
 	}
 	var bw sync.WaitGroup
@@ -598,12 +628,16 @@ func runCheck(id string) int {
 		if err != nil {
 			infra("%v", err)
 		}
-		for attempt := 0; attempt < 3; attempt++ {
-			if ok, _ := replayOnce(b, v.Replay, rp); ok {
-				confirmedRaces++
-				uniq = append(uniq, v)
-				break
-			}
+		okRace := false
+		for attempt := 0; attempt < 3 && !okRace; attempt++ {
+			okRace, _ = replayOnce(b, v.Replay, rp)
+		}
+		if !okRace && i < 3 {
+			okRace = withHistory(b, v.Replay, rp)
+		}
+		if okRace {
+			confirmedRaces++
+			uniq = append(uniq, v)
 		}
 	}
 	if len(raceCands) > 0 && confirmedRaces == 0 {
@@ -739,7 +773,10 @@ func confirm(b *builder, v found) (string, bool) {
 	}
 	ok, _ := replayOnce(b, v.Replay, rp)
 	if !ok {
-		return v.Replay, false
+		if !withHistory(b, v.Replay, rp) {
+			return v.Replay, false
+		}
+		return v.Replay, true
 	}
 	if v.Class == "data-race" && !rp.Minimised {
 		// minimise across fresh processes (the race runtime de-duplicates reports per process)
@@ -791,6 +828,32 @@ func confirm(b *builder, v found) (string, bool) {
 	return v.Replay, true
 }
 
+// withHistory retries a replay that did not reproduce in a fresh process with the
+// process history of the original worker (the runs it executed before the failing
+// one).  If that reproduces, the violation depends on state the library keeps
+// between independent calls; the replay file is marked accordingly.
+func withHistory(b *builder, path string, rp *core.Replay) bool {
+	if rp.TapeOrig == nil || rp.RefVariant != "" {
+		return false
+	}
+	rp.NeedsPrefix = true
+	rp.Minimised = false
+	core.WriteJSON(path, rp)
+	ok, vs := replayOnce(b, path, rp)
+	if !ok {
+		return false
+	}
+	for _, x := range vs {
+		if core.SameViolation(rp.Violation(), x) {
+			rp.Detail = x.Detail + "\n[history-dependent: reproduces only after the " + strconv.FormatUint(rp.PrefixCount, 10) + " runs its worker executed before it; the library keeps state between independent calls]"
+			break
+		}
+	}
+	fmt.Printf("  (violation %s/%s reproduces only with its process history: %d earlier runs are replayed first)\n", rp.Class, rp.Key, rp.PrefixCount)
+	core.WriteJSON(path, rp)
+	return true
+}
+
 func runReplay(path string) int {
 	rp, err := core.ReadReplay(path)
 	if err != nil {
@@ -820,9 +883,12 @@ func readFP(paths []string) map[uint64]string {
 		}
 		for _, ln := range strings.Split(string(data), "\n") {
 			f := strings.Fields(ln)
-			if len(f) == 2 {
+			if len(f) >= 2 {
 				i, _ := strconv.ParseUint(f[0], 10, 64)
 				m[i] = f[1]
+				if len(f) >= 3 && f[2] != "0" {
+					m[i] = f[1] + "!" // the run reported a violation
+				}
 			}
 		}
 	}
@@ -850,26 +916,60 @@ func determinismSample(b *builder, def *checkDef, results []*itemResult, outRoot
 		v := variants[r.item.variant]
 		bin := b.build(r.item.variant)
 		fpl := filepath.Join(r.outDir, "fp.det")
-		args := append(v.workerArgs(), "-w", r.item.workload, "-seed", strconv.FormatUint(baseSeed, 10), "-start", "0", "-stride", "1",
-			"-count", strconv.FormatUint(n, 10), "-tier", tier, "-out", r.outDir, "-id", "det", "-fplist", fpl, "-noshrink")
-		if v.race {
-			args = append(args, "-racelog", filepath.Join(r.outDir, "race.det"))
+		// Same process layout as worker 0 of the main run (same first index, same stride), so
+		// that state the library legitimately keeps between calls (lazy initialisation) sees the
+		// same history; what differs is the process, GOMAXPROCS and the machine load.
+		stride := uint64(r.workers)
+		if stride == 0 {
+			stride = 1
 		}
-		c := exec.Command(bin, args...)
-		env := append(v.env(r.outDir, "det"), coldEnv(r.item.workload)...)
-		env = append(env, "GOMAXPROCS=5")
-		c.Env = env
-		var eb bytes.Buffer
-		c.Stderr = &eb
-		c.Stdout = &eb
-		if err := c.Run(); err != nil {
-			infra("determinism re-run of %s failed: %v\n%s", r.item.workload, err, tail(eb.String(), 2000))
+		if n > (r.evaluations+stride-1)/stride {
+			n = (r.evaluations + stride - 1) / stride
+		}
+		var fpls []string
+		runDet := func(start, count uint64, id string) {
+			f := fpl + "." + id
+			fpls = append(fpls, f)
+			args := append(v.workerArgs(), "-w", r.item.workload, "-seed", strconv.FormatUint(baseSeed, 10), "-start", strconv.FormatUint(start, 10),
+				"-stride", strconv.FormatUint(stride, 10), "-count", strconv.FormatUint(count, 10), "-tier", tier, "-out", r.outDir, "-id", "det"+id, "-fplist", f, "-noshrink")
+			if v.race {
+				args = append(args, "-racelog", filepath.Join(r.outDir, "race.det"+id))
+			}
+			if r.item.cold {
+				args = append(args, "-bitmapbits", "12")
+			}
+			c := exec.Command(bin, args...)
+			env := append(v.env(r.outDir, "det"+id), coldEnv(r.item.workload)...)
+			env = append(env, "GOMAXPROCS=5")
+			c.Env = env
+			var eb bytes.Buffer
+			c.Stderr = &eb
+			c.Stdout = &eb
+			if err := c.Run(); err != nil {
+				infra("determinism re-run of %s failed: %v\n%s", r.item.workload, err, tail(eb.String(), 2000))
+			}
+		}
+		if r.item.cold {
+			if n > 24 {
+				n = 24
+			}
+			for i := uint64(0); i < n; i++ {
+				runDet(i, 1, strconv.FormatUint(i, 10))
+			}
+		} else {
+			runDet(0, n, "0")
 		}
 		a := readFP(r.fplists)
-		d := readFP([]string{fpl})
+		d := readFP(fpls)
 		for i, fp := range d {
 			if o, ok := a[i]; ok {
 				total++
+				if strings.HasSuffix(o, "!") || strings.HasSuffix(fp, "!") {
+					// a run that reports a violation may do so only after certain earlier runs of
+					// its process (library state leaking between calls); that is reported and
+					// confirmed through the replay path, not treated as harness nondeterminism
+					continue
+				}
 				if o != fp {
 					return total, fmt.Sprintf("workload %s variant %s run index %d: fingerprint %s vs %s in a second process", r.item.workload, r.item.variant, i, o, fp)
 				}
